@@ -64,6 +64,11 @@ def fam_bits(rec, tier, rnd, only=None):
         vec = [(v, o, p) for v in range(1 << w) for o in range(1 << ow) for p in (0, 1)]
         comb_check(rec, f"shift_rotate/w{w}", build_bits(w, ow), vec, ref_bits(w), family="bit_shifters", exhaustive=True,
                    klass_of=lambda v, w=w: KLASS if v[1] > w else "")
+        now = (w - 1).bit_length()  # the narrower range(w) offset idiom
+        if now != ow:
+            vec = [(v, o, p) for v in range(1 << w) for o in range(1 << now) for p in (0, 1)]
+            comb_check(rec, f"shift_rotate/w{w}/narrow_offset", build_bits(w, now), vec, ref_bits(w), family="bit_shifters", exhaustive=True,
+                       klass_of=lambda v, w=w: KLASS if v[1] > w else "")
     for w in large:
         if only is not None and w != only:
             continue
@@ -80,9 +85,9 @@ def fam_vec(rec, tier, rnd, only=None):
     for n in range(1, 6 if tier == "quick" else 8):
         if only is not None and n != only:
             continue
-        for struct in (False, True):
+        # offset signals of both usual widths: one that can represent the length n (range(n + 1)) and the narrower range(n) idiom (zero bits for n = 1)
+        for struct, ow in [(st, w_) for st in (False, True) for w_ in sorted({n.bit_length(), (n - 1).bit_length()})]:
             ew = 5 if struct else 3
-            ow = n.bit_length()
 
             def build(n=n, struct=struct, ew=ew, ow=ow):
                 m = Module()
@@ -124,7 +129,7 @@ def fam_vec(rec, tier, rnd, only=None):
                 d = [rnd.randrange(1, 1 << ew) for _ in range(n)]
                 for o in range(1 << ow):
                     vec.append((*d, o, rnd.randrange(1 << ew)))
-            comb_check(rec, f"vec/{'struct' if struct else 'plain'}/n{n}", build, vec, ref, family="vector_shifters",
+            comb_check(rec, f"vec/{'struct' if struct else 'plain'}/n{n}/ow{ow}", build, vec, ref, family="vector_shifters",
                        klass_of=lambda v, n=n: KLASS if v[n] > n else "")
 
 
